@@ -157,6 +157,16 @@ void harness (void)
       POST (IMP (ret, G.activation == 1 && G.activation_ok) && G.activation <= 1, "acq.post8a pending auto-activation messages released exactly once on success");
       POST (IMP (G.activation == 1, (R.op != REF_OP_CREATE || G.ensure_ok) && (G.add == 0 || G.add_ok) && (G.swap == 0 || G.swap_ok) && (G.remove == 0 || G.remove_ok)), "acq.post8b ... and only after the queue operation succeeded");
     }
+#ifdef VERIF_C14
+  /* C14: "either every effect of a request takes place or none does and the caller receives a NoMemory error".
+   * FALSE makes bus_dispatch cancel the transaction; only changes that registered an undo hook are rolled back.
+   * add_owner registers a hook only for a NEW entry (C04.add_owner: add.hook); set_flags on the primary, the
+   * unlink of the EXISTS branch and the refresh / move of an already queued requester register none. */
+  POST (IMP (!ret, primary_flags_kept), "acq.c14a FALSE => the primary's stored flags are as before");
+  POST (IMP (!ret, G.unlink == 0), "acq.c14b FALSE => the requester has not been dropped from the queue");
+  POST (IMP (!ret, !(G.add == 1 && G.add_ok && in_req_in_queue)), "acq.c14c FALSE => an already queued requester has not been refreshed / moved");
+  if (!ret && G.activation == 1) REACH ("failed-at-the-last-step");
+#endif
   if (ret && res == REF_REQ_PRIMARY_OWNER && R.op == REF_OP_CREATE) REACH ("primary-owner-new");
   if (ret && res == REF_REQ_PRIMARY_OWNER && R.op == REF_OP_REPLACE_SWAP) REACH ("primary-owner-swap");
   if (ret && res == REF_REQ_PRIMARY_OWNER && R.op == REF_OP_REPLACE_DROP) REACH ("primary-owner-drop");
